@@ -28,7 +28,7 @@ def name_of(cfg):
 
 def hist_name(h):
     def one(o):
-        if o[0] in ('state', 'mem') and len(o) > 1:
+        if o[0] in ('state', 'mem', 'reload') and len(o) > 1:
             return f'{o[0]}@{o[1]}'
         if o[0] == 'ckpt':
             return f'load(inv={o[2]})'
@@ -39,7 +39,7 @@ def hist_name(h):
 def alphabet(world):
     return [['train'], ['eval'], ['state'], ['state', [0]], ['mem'],
             ['mem', [world - 1]], ['ckpt', True, True],
-            ['ckpt', True, False]]
+            ['ckpt', True, False], ['reload', [0]]]
 
 
 def program_of(cfg):
@@ -347,6 +347,7 @@ def main(run: core.Run):
     run.notes['explorations'] = len(exps)
     run.rule = (
         f'operation-history BFS to depth {depth} over {{train, eval, '
+        'factor-less reload on one rank, '
         'state_dict on all ranks / rank 0 only, memory_usage on all ranks / '
         'one rank, load_state_dict(compute_inverses=T/F) of the latest state '
         'into fresh objects}} (states merged by the digest of all ranks\' '
